@@ -1,6 +1,6 @@
 // Signatures of library failures that survive edits elsewhere in the file: no line numbers.
-//   assertion        assert@<lib/file>:<function>[<asserted expression, blanks removed>]
-//   crash / ASan / leak / damaged block: <kind>@<lib/file>:<function>
+//   assertion        assert@<lib/file>[<asserted expression, blanks removed>]   (+ :<function> when the expression is just "false")
+//   crash / ASan / leak / damaged block: <kind>@<lib/file>:<function through which that file was entered>
 #pragma once
 #include <string>
 #include <cstring>
@@ -13,7 +13,12 @@ static inline std::string sigExpr(const char *expr) {
     return e;
 }
 static inline std::string sigFunc(std::string fn);
-static inline std::string assertSig(const vpsc::CriticalFailure &f) { return "assert@" + sigFile(f.file) + (f.function ? ":" + sigFunc(f.function) : std::string()) + "[" + sigExpr(f.expr) + "]"; }
+// the function is named only where the expression says nothing ("false", "0"): an assertion moved into an extracted helper keeps its name
+static inline std::string assertSig(const vpsc::CriticalFailure &f) {
+    std::string e = sigExpr(f.expr);
+    bool trivial = e == "false" || e == "0" || e == "true" || e == "1";
+    return "assert@" + sigFile(f.file) + (trivial && f.function ? ":" + sigFunc(f.function) : std::string()) + "[" + e + "]";
+}
 // "Avoid::ConnEnd::disconnect(bool)" -> "ConnEnd::disconnect"; "std::..." and operators are kept as they are
 static inline std::string sigFunc(std::string fn) {
     size_t nl = fn.find('\n'); if (nl != std::string::npos) fn = fn.substr(0, nl);
